@@ -436,6 +436,8 @@ CHECKS = {
          "4 C23"),
 }
 
+STRENGTHENED = json.load(open(os.path.join(ROOT, "tools_strengthening.json")))
+
 NOT_YET = "check not built yet in this round (design in DESIGN.md section 4)"
 
 
@@ -447,6 +449,13 @@ def main():
         if pid not in CHECKS:
             continue
         cat, text, note, tech, ref = CHECKS[pid]
+        added = [v for k, v in sorted(STRENGTHENED.items())
+                 if k.startswith(pid + "-") and not v.startswith(
+                     ("same as", "not caught by"))]
+        if added:
+            text += (" Input classes / legs added after independently "
+                     "seeded changes were missed (DESIGN.md section 10): "
+                     + "; ".join(added) + ".")
         checks.append(dict(
             property_id=pid,
             quick_cmd=f"./check {pid} --tier quick",
